@@ -287,8 +287,12 @@ impl Mempool {
         let mut block = match block {
             Ok(block) => block,
             Err(_) => {
+                // Block::create handed the transactions back
                 self.rebuild_utxo_map();
                 self.routing_work_in_mempool = 0;
+                for (_, transaction) in &self.transactions {
+                    self.routing_work_in_mempool += transaction.total_work_for_me;
+                }
                 return None;
             }
         };
